@@ -5,6 +5,8 @@ import (
 	"bytes"
 	"io"
 	"os"
+
+	"verif/harness/core"
 )
 
 // The kind and behaviour of the io.Reader that delivers a file is part of a reader's input space:
@@ -68,6 +70,7 @@ var ReaderVariants = []ReaderVariant{
 	{"read-only-wrapper", func(d []byte) io.Reader { return onlyRead{bytes.NewReader(d)} }},
 	{"one-byte-per-read", func(d []byte) io.Reader { return &oneByte{data: d} }},
 	{"final-chunk-with-EOF", func(d []byte) io.Reader { return &eofWithData{data: d} }},
+	{"bytes.Reader-behind-7-consumed-bytes", func(d []byte) io.Reader { return core.Positioned(d, 7) }},
 }
 
 // ShmDir is where temp files for the *os.File delivery go ("" when /dev/shm is absent).
